@@ -602,7 +602,9 @@ func (t *Trie) Find(prefix, from []byte, maxNum int) ([]storage.KeyValue, error)
 	if err != nil {
 		return nil, fmt.Errorf("failed to determine the start node: %w", err)
 	}
-	path = path[len(prefixP):]
+	// The path can be a key of an extension node of the trie itself,
+	// traversal appends to it.
+	path = slices.Clone(path[len(prefixP):])
 
 	if len(fromP) > 0 {
 		if len(path) <= len(fromP) && bytes.HasPrefix(fromP, path) {
